@@ -15,7 +15,7 @@ from ..common import Verdict, run_tlc, tlc_must_pass, validate_traces_parallel, 
 from ..gen import write_job, generate, run_in_pkg
 from ..universe import gamma
 
-SDL = gamma.SDL + "\nextend type Query { version: String byId(id: ID!, flt: Flt): A byColor(c: Color, f: Flt, w: Date): A }\ninput Flt { q: String when: Date }\ntype Subscription { ticks: Int! }\n"
+SDL = gamma.SDL + "\nextend type Query { version: String byId(id: ID!, flt: Flt): A byColor(c: Color, f: Flt): A today: Date dates: [Date!] }\ninput Flt { q: String when: Date }\ntype Subscription { ticks: Int! }\n"
 QUERIES = """
 query OneField { a { id name when color } }
 query ManyFields { a { id } d { id d1 } }
@@ -27,20 +27,24 @@ subscription SubOp { ticks }
 query TypenameAndField { __typename a { id } }
 query OnlyTypename { __typename }
 query RootFragment { ...RootInfo }
-query ReqArgsOp($c: Color!, $f: Flt!, $w: Date!) { byColor(c: $c, f: $f, w: $w) { id } }
-query OptArgsOp($c: Color, $f: Flt, $w: Date) { byColor(c: $c, f: $f, w: $w) { id } }
+query ReqArgsOp($c: Color!, $f: Flt!) { byColor(c: $c, f: $f) { id } }
+query OptArgsOp($c: Color, $f: Flt) { byColor(c: $c, f: $f) { id } }
+query ScalarDateOp { today }
+query ScalarDatesOp { dates }
 query LiteralOp { byId(id: "par\\u2028graph \\"q\\" \\\\ end", flt: {q: "form\\u000Cfeed"}) { id } }
 fragment FA on A { a1 tags }
 fragment RootInfo on Query { __typename version }
 """
 OPS = {"OneField": False, "ManyFields": False, "UnionOp": False, "FragOp": False, "ScalarOp": False, "ArgsOp": True, "SubOp": False,
        "TypenameAndField": False, "OnlyTypename": False, "RootFragment": False, "LiteralOp": False,
-       "ReqArgsOp": "req", "OptArgsOp": False}
+       "ReqArgsOp": "req", "OptArgsOp": False, "ScalarDateOp": False, "ScalarDatesOp": False}
 KIND = {"OneField": "one_field", "ManyFields": "many_fields", "UnionOp": "union", "FragOp": "fragment", "ScalarOp": "scalar",
         "ArgsOp": "arguments", "SubOp": "subscription", "TypenameAndField": "typename_and_field", "OnlyTypename": "only_typename",
         "RootFragment": "root_fragment_two_fields", "LiteralOp": "string_literals",
         # one class (enum Color, input Flt) as a REQUIRED argument of one method and an OPTIONAL one of another
-        "ReqArgsOp": "required_arguments", "OptArgsOp": "optional_arguments"}
+        "ReqArgsOp": "required_arguments", "OptArgsOp": "optional_arguments",
+        # the single top-level field is a custom scalar mapped to an ABSOLUTE Python type that no operation variable uses
+        "ScalarDateOp": "custom_scalar_result", "ScalarDatesOp": "custom_scalar_list_result"}
 MANY = ("many_fields", "typename_and_field", "root_fragment_two_fields")     # Plugins!SingleTopLevel is FALSE for these
 PATH = {"shorter": "ariadne_codegen.contrib.shorter_results.ShorterResultsPlugin",
         "extract": "ariadne_codegen.contrib.extract_operations.ExtractOperationsPlugin",
@@ -82,7 +86,7 @@ def norm_req(r):
 
 
 def top_key(opname):
-    return {"OneField": "a", "UnionOp": "u", "FragOp": "a", "ScalarOp": "version", "ArgsOp": "byId", "SubOp": "ticks", "OnlyTypename": "__typename", "LiteralOp": "byId", "ReqArgsOp": "byColor", "OptArgsOp": "byColor"}.get(opname)
+    return {"OneField": "a", "UnionOp": "u", "FragOp": "a", "ScalarOp": "version", "ArgsOp": "byId", "SubOp": "ticks", "OnlyTypename": "__typename", "LiteralOp": "byId", "ReqArgsOp": "byColor", "OptArgsOp": "byColor", "ScalarDateOp": "today", "ScalarDatesOp": "dates"}.get(opname)
 
 
 def run(tier, work, replay=None):
